@@ -38,3 +38,9 @@ Theorem C10_nullable_flag_meaning : forall rules x,
   exists rhs, In (x, rhs) (arules rules) /\ gen (arules rules) (fun _ => false) rhs.
 Proof. exact nullable_spec. Qed.
 Print Assumptions C10_nullable_flag_meaning.
+
+(* the flag "accessible" holds exactly for the symbols that can be reached from the axiom through right-hand sides *)
+Theorem C10_reachable_flag_meaning : forall rules x,
+  memn x (ReadGrammar.reachable rules) = true <-> ReadGrammarSem.reachable (arules rules) n_axiom x.
+Proof. exact reachable_spec. Qed.
+Print Assumptions C10_reachable_flag_meaning.
